@@ -96,13 +96,21 @@ func stringToInt(ss string) (int64, error) {
 		return 0, nil
 	}
 	if len(ss) > 2 {
+		base := 0
 		switch ss[:2] {
 		case "0x", "0X":
-			return strconv.ParseInt(ss[2:], 16, 64)
+			base = 16
 		case "0b", "0B":
-			return strconv.ParseInt(ss[2:], 2, 64)
+			base = 2
 		case "0o", "0O":
-			return strconv.ParseInt(ss[2:], 8, 64)
+			base = 8
+		}
+		if base != 0 {
+			if ss[2] == '-' || ss[2] == '+' {
+				// strconv.ParseInt would accept a sign here
+				return 0, &strconv.NumError{Func: "ParseInt", Num: ss, Err: strconv.ErrSyntax}
+			}
+			return strconv.ParseInt(ss[2:], base, 64)
 		}
 	}
 	i, err := strconv.ParseInt(ss, 10, 64)
